@@ -250,6 +250,12 @@ class ScriptServer(fakenet.Endpoint):
                         cut = m
                 data, rest = data[:cut], data[cut:]
                 tail_items += fakenet.segment(rest, o.get("seg"))
+            if o.get("sleep_interrupt"):
+                # the pause urllib3 makes after this response (Retry-After / backoff) is interrupted: a BaseException
+                # arrives while no I/O is in progress and urllib3 alone holds the response
+                exc = Interrupt("injected at sleep")
+                self.injected.append(exc)
+                sock.net.clock.interrupt = exc
             self.reply(sock, data, o.get("seg"))
             sink = tail_items if late_at is not None else rx
             if stray:
